@@ -105,28 +105,38 @@ class H1Tempo(Case):
         return obs
 
 
-def _mf_inputs(inp, d, K, N):
-    infl = lib.Influences(inp, d, K)
-    A1 = [lib.gen_prop(inp, "a%d" % k, d) for k in range(_OVER * N)]
-    B1 = [lib.gen_prop(inp, "b%d" % k, d) for k in range(_OVER * N)]
-    A2 = [lib.gen_prop(inp, "q%d" % k, d) for k in range(_OVER * N)]
-    rho0 = inp.arr("r", (d, d))
+def _mf_inputs(inp, d, K, N, nsys=1):
+    """one system: plain objects (names as before); several: lists over the systems"""
+    def per(sfx):
+        infl = lib.Influences(inp, d, K, name="I" + sfx)
+        A1 = [lib.gen_prop(inp, "a%s%d" % (sfx, k), d) for k in range(_OVER * N)]
+        B1 = [lib.gen_prop(inp, "b%s%d" % (sfx, k), d) for k in range(_OVER * N)]
+        A2 = [lib.gen_prop(inp, "q%s%d" % (sfx, k), d) for k in range(_OVER * N)]
+        return infl, A1, B1, A2, inp.arr("r" + sfx, (d, d))
+    if nsys == 1:
+        infl, A1, B1, A2, rho0 = per("")
+    else:
+        infl, A1, B1, A2, rho0 = (list(x) for x in zip(*[per("s%d_" % s) for s in range(nsys)]))
     start = inp.int("start", -2, 2)
     f0 = inp.real("f0")
-    w = [inp.real("w%d" % i) for i in range(3)]
+    w = [inp.real("w%d" % i) for i in range(2 + nsys)]
 
     def eom(tm, states, field):
         # user's field equation of motion: any function of (t, states, field); here affine with symbolic weights
-        return w[0] * field + w[1] * states[0][0, 1] + w[2] * tm
+        out = w[0] * field + w[1] * tm
+        for s in range(nsys):
+            out = out + w[2 + s] * states[s][0, 1]
+        return out
     return infl, A1, B1, A2, rho0, start, f0, eom
 
 
+_MF_NAMES = ("times", "fields") + tuple("states of system %d" % i for i in range(4))
 _MF_FUNCS = ("MeanFieldTempo.compute", "MeanFieldTempo._get_num_step", "MeanFieldTempo._time", "MeanFieldTempo._compute_field",
              "MeanFieldTempo._compute_field_derivative", "MeanFieldTempoBackend.initialize", "MeanFieldTempoBackend.compute_step",
              "BaseTempoBackend.compute_system_step", "MeanFieldDynamics.add", "Dynamics.add", "NodeArray.*")
 _MF_STUBS = ("tensornetwork numpy backend svd -> exact non-truncating factorisation",
              "system.get_propagators closure -> field-dependent symbolic half-step propagators A1[k] + field*B1[k], A2[k]",
-             "field_eom -> affine function of (t, rho[0,1], field) with symbolic weights",
+             "field_eom -> affine function of (t, rho_s[0,1] of every system, field) with symbolic weights",
              "influence_matrix -> symbolic influence matrices with trace structure")
 
 
@@ -136,16 +146,16 @@ class H1MeanField(Case):
     functions = _MF_FUNCS
     stubs = _MF_STUBS
 
-    def __init__(self, N, K, dt=0.5, ncalls=3):
-        self.N, self.K, self.dt, self.ncalls = N, K, dt, ncalls
-        self.id = "H1/meanfield/N%d_K%s_dt%s_c%d" % (N, K, dt, ncalls)
-        self.bounds = {"d": 2, "systems": 1, "N": N, "dkmax": K, "calls": ncalls, "dt": dt}
+    def __init__(self, N, K, dt=0.5, ncalls=3, nsys=1):
+        self.N, self.K, self.dt, self.ncalls, self.nsys = N, K, dt, ncalls, nsys
+        self.id = "H1/meanfield/N%d_K%s_dt%s_c%d%s" % (N, K, dt, ncalls, "" if nsys == 1 else "_sys%d" % nsys)
+        self.bounds = {"d": 2, "systems": nsys, "N": N, "dkmax": K, "calls": ncalls, "dt": dt}
         self.env = _tempo_env(N)
         self.timeout_s = 300
 
     def run(self, inp):
         d, N, K, dt = 2, self.N, self.K, self.dt
-        infl, A1, B1, A2, rho0, start, f0, eom = _mf_inputs(inp, d, K, N)
+        infl, A1, B1, A2, rho0, start, f0, eom = _mf_inputs(inp, d, K, N, self.nsys)
         es = [inp.int("e%d" % i, 0, N) for i in range(self.ncalls)]
         t0 = hs.as_time(start, 0, dt)
         obj = hs.make_mean_field_tempo(d, K, rho0, infl, A1, B1, A2, t0, dt, f0, eom)
@@ -156,7 +166,7 @@ class H1MeanField(Case):
         ref.compute(hs.as_time(start, hs.sym_maximum(es), dt), progress_type="silent")
         g, r = hs.mf_lists(obj.get_dynamics()), hs.mf_lists(ref.get_dynamics())
         obs = []
-        for nm, a, b in zip(("times", "fields", "states"), g, r):
+        for nm, a, b in zip(_MF_NAMES, g, r):
             obs += _eq_lists(nm, a, b, "split_vs_single")
         obs.append(Ob.holds("number of time points = max target + 1", hs.sym_maximum(es) + 1 == len(r[0]), key="grid"))
         obs += [Ob.eq("time[%d] = start + %d*dt" % (i, i), r[0][i], hs.as_time(start, i, dt), key="grid") for i in range(len(r[0]))]
@@ -279,14 +289,14 @@ def _retry_history(obj, targets, time_of):
     return None
 
 
-_MF_KINDS = {
-    # user callables evaluated BEFORE the tensor networks are touched in a step:
-    # field_eom in _compute_field_derivative (call 0 of a step), Hamiltonian in the propagators (call 1)
-    "before_network": (0, 1),
-    # field_eom evaluated by _compute_field (Runge-Kutta stages, calls 2 and 3 of a step), i.e. AFTER
-    # every system's network has been advanced
-    "in_compute_field": (2, 3),
-}
+def _mf_kind_calls(kind, nsys):
+    """user-callable evaluations of one step, in order: 0 field_eom in _compute_field_derivative; 1..nsys the
+    Hamiltonian of system 0..nsys-1 inside its propagator closure; nsys+1, nsys+2 field_eom in the two
+    Runge-Kutta stages of _compute_field (after every system's network has been advanced)"""
+    return {"before_network": (0, nsys), "in_compute_field": (nsys + 1, nsys + 2)}[kind]
+
+
+_MF_KINDS = ("before_network", "in_compute_field")
 
 
 class H2MeanField(Case):
@@ -296,21 +306,23 @@ class H2MeanField(Case):
     stubs = _MF_STUBS
     assumptions = ("the failure is transient: the user callable raises exactly once",)
 
-    def __init__(self, kind, N, K, dt=0.5, pre=True):
-        self.kind, self.N, self.K, self.dt, self.pre = kind, N, K, dt, pre
-        self.id = "H2/meanfield_fault_%s/N%d_K%s%s" % (kind, N, K, "" if pre else "_single")
+    def __init__(self, kind, N, K, dt=0.5, pre=True, nsys=1):
+        self.kind, self.N, self.K, self.dt, self.pre, self.nsys = kind, N, K, dt, pre, nsys
+        self.id = "H2/meanfield_fault_%s/N%d_K%s%s%s" % (kind, N, K, "" if pre else "_single", "" if nsys == 1 else "_sys%d" % nsys)
         self.first_timeout_s = _INSTANCE_FIRST
-        self.bounds = {"d": 2, "systems": 1, "N": N, "dkmax": K, "fault": "call index mod 4 in %s" % (_MF_KINDS[kind],),
+        self.bounds = {"d": 2, "systems": nsys, "N": N, "dkmax": K,
+                       "fault": "call index mod %d in %s..%s" % ((nsys + 3,) + _mf_kind_calls(kind, nsys)),
                        "calls": "compute(e1); compute(N); each retried once after the fault"}
         self.env = _tempo_env(N)
         self.timeout_s = 300
 
     def run(self, inp):
         d, N, K, dt = 2, self.N, self.K, self.dt
-        infl, A1, B1, A2, rho0, start, f0, eom = _mf_inputs(inp, d, K, N)
+        infl, A1, B1, A2, rho0, start, f0, eom = _mf_inputs(inp, d, K, N, self.nsys)
         step_of_fault = inp.int("fstep", 0, N - 1)
-        which = inp.int("fcall", _MF_KINDS[self.kind][0], _MF_KINDS[self.kind][1])
-        fault = 4 * step_of_fault + which
+        lo, hi = _mf_kind_calls(self.kind, self.nsys)
+        which = inp.int("fcall", lo, hi)
+        fault = (self.nsys + 3) * step_of_fault + which
         targets = ([inp.int("e1", 0, N)] if self.pre else []) + [N]
         plan = hs.FaultPlan(fault)
         t0 = hs.as_time(start, 0, dt)
@@ -322,7 +334,7 @@ class H2MeanField(Case):
         ref.compute(hs.as_time(start, N, dt), progress_type="silent")
         g, r = hs.mf_lists(obj.get_dynamics()), hs.mf_lists(ref.get_dynamics())
         obs = [Ob.holds("fault was injected", plan.fired is not None, key="harness")]
-        for nm, a, b in zip(("times", "fields", "states"), g, r):
+        for nm, a, b in zip(_MF_NAMES, g, r):
             obs += _eq_lists(nm, a, b, "retry_after_fault")
         return obs
 
@@ -537,6 +549,7 @@ class H4RestartReal(Case):
         ra = A.compute(N, progress_type="silent")
         B = hs.make_pt_tebd_real(mk_mps(), pts, None, t0, 0, dt, ctr, self.sites)
         B.compute(r, progress_type="silent")
+        B.get_current_density_matrix(0)           # a read-out before the export must not matter
         C = hs.make_pt_tebd_real(B.get_augmented_mps(), pts, None, B.time(r), r, dt, ctr, self.sites)
         rc = C.compute(N, progress_type="silent")
         obs = _eq_lists("time", list(rc["time"]), list(ra["time"])[r:], "restart_vs_uninterrupted")
@@ -548,7 +561,8 @@ class H4RestartReal(Case):
 
 
 class H1PtTebdReal(Case):
-    """PtTebd.compute(e1); compute(e2) == compute(max) on the REAL PtTebdBackend (symbolic gates, process tensors)."""
+    """PtTebd.compute(e1); compute(e2) == compute(max) on the REAL PtTebdBackend (symbolic gates, process tensors), with
+    get_current_density_matrix / get_results / get_augmented_mps read-outs interleaved between the calls."""
     functions = H4RestartReal.functions
     stubs = H4RestartReal.stubs
     real_env = hs.TEBD_REAL_STUBS
@@ -569,12 +583,30 @@ class H1PtTebdReal(Case):
         es = [inp.int("e%d" % i, 0, N) for i in range(2)]
         t0 = hs.as_time(start, 0, dt)
         obj = hs.make_pt_tebd_real(mk_mps(), pts, None, t0, 0, dt, (), self.sites)
-        for e in es:
-            obj.compute(e, progress_type="silent")
+        obs = []
+        for i, e in enumerate(es):
+            try:
+                res = obj.compute(e, progress_type="silent")
+            except Exception as ex:      # noqa
+                if i == 0:
+                    raise
+                # a compute call that follows read-outs must behave like one that does not (with the non-truncating
+                # SVD stub a stale cache shows as a dimension mismatch; on the real stack as different numbers)
+                return obs + [Ob.holds("compute call %d after read-outs raised %s" % (i, type(ex).__name__), False,
+                                       key="split_vs_single")]
+            # read-outs interleaved between the compute calls: they must not change anything, and the current
+            # reduced state is the last recorded one
+            pair = tuple(range(self.sites))
+            obs.append(Ob.eq("read-out after call %d: site 0" % i, obj.get_current_density_matrix(0),
+                             res["dynamics"][0]._states[-1], key="readout"))
+            obs.append(Ob.eq("read-out after call %d: all sites" % i, obj.get_current_density_matrix(pair),
+                             res["dynamics"][pair]._states[-1], key="readout"))
+            obj.get_results()
+            obj.get_augmented_mps()
         ref = hs.make_pt_tebd_real(mk_mps(), pts, None, t0, 0, dt, (), self.sites)
         ref.compute(hs.sym_maximum(es), progress_type="silent")
         rg, rr = obj.get_results(), ref.get_results()
-        obs = _eq_lists("time", list(rg["time"]), list(rr["time"]), "split_vs_single")
+        obs += _eq_lists("time", list(rg["time"]), list(rr["time"]), "split_vs_single")
         obs += _eq_lists("norm", list(rg["norm"]), list(rr["norm"]), "split_vs_single")
         for k in rr["dynamics"]:
             obs += _eq_lists("states of %s" % (k,), list(rg["dynamics"][k]._states), list(rr["dynamics"][k]._states), "split_vs_single")
@@ -586,7 +618,8 @@ def cases(tier):
     # H1 continuation
     cs += [H1Tempo(4, 1), H1Tempo(3, None, dt=1.0, ncalls=2), H1MeanField(3, 1), H1PtTebd(4), H1PtTebdReal(2)]
     # H2 fault injection (tempo_hamiltonian_fault, meanfield_fault_in_compute_field: expected defects)
-    cs += [H2Tempo(3, 1), H2MeanField("before_network", 2, 1), H2MeanField("in_compute_field", 2, 1, pre=False)]
+    cs += [H2Tempo(3, 1), H2MeanField("before_network", 2, 1), H2MeanField("in_compute_field", 2, 1, pre=False),
+           H2MeanField("before_network", 2, 1, pre=False, nsys=2)]
     # H3 fixed-end methods (pt_tempo_compute_when_finished, gibbs_compute_twice: expected defects)
     cs += [H3PtTempo(q, 3, K) for q in _PT_SEQS for K in (None, 1)]
     cs += [H3Gibbs(2, "zero"), H3Gibbs(3, "zero"), H3Gibbs(3, "sym"), H3Gibbs(4, "zero", calls=3)]
@@ -597,7 +630,9 @@ def cases(tier):
         cs += [H1Tempo(4, 2), H1Tempo(4, None, ncalls=2), H1Tempo(4, 1, tau_add=True), H1Tempo(5, 2, dt=1.0),
                H1MeanField(3, None, ncalls=2), H1MeanField(4, 2, ncalls=2), H1PtTebd(5), H1PtTebdReal(3, sites=2, ptbond=2), H1PtTebdReal(2, sites=3, chi=2, ptbond=2)]
         cs += [H2Tempo(4, 2), H2Tempo(3, None), H2Tempo(4, 1, pre=False), H2MeanField("before_network", 3, 1),
-               H2MeanField("in_compute_field", 2, 1), H2MeanField("in_compute_field", 3, None, pre=False)]
+               H2MeanField("in_compute_field", 2, 1), H2MeanField("in_compute_field", 3, None, pre=False),
+               H2MeanField("before_network", 2, 1, nsys=2), H2MeanField("in_compute_field", 2, 1, pre=False, nsys=2),
+               H2MeanField("before_network", 2, None, pre=False, nsys=3), H1MeanField(2, 1, ncalls=2, nsys=2)]
         cs += [H3PtTempo(q, 4, 2) for q in _PT_SEQS] + [H3PtTempo("compute_get_get", 4, 1), H3PtTempo("get_twice", 4, None)]
         cs += [H3Gibbs(4, "sym"), H3Gibbs(5, "zero"), H3Gibbs(2, "sym", calls=3)]
         cs += [H4Restart(5, c) for c in _RESTART_CONTROLS]
